@@ -2,9 +2,9 @@
 from harness import comp_logger as L
 from vlib import core
 
-PROPS = "Props/C12.v"
+PROPS = ["Props/C12.v", "Props/C12extent.v"]
 THEOREMS = ["C12_refines", "C12_other_rows_untouched", "C12_growth_invisible", "C12_func_count_exact",
-            "C12_merged_is_weighted_mean", "C12_call_order_preserved", "C12_no_double_match"]
+            "C12_merged_is_weighted_mean", "C12_call_order_preserved", "C12_no_double_match", "C12_extent_covers_every_record"]
 LEVEL = "proof"
 RULE = ("op sequences over FunctionLogger generated from one PRNG (new points / exact repeats / points sharing k<D "
         "coordinates / record flags / add / finalize / 13 fault kinds; D 1-4; cache sizes 0-8,500; levels 0,1,2; "
@@ -53,6 +53,28 @@ def tie(ctx, broken):
     ctx.coverage["traces_validated_against_impl"] = len(cases) - len(bad)
     good = ctx.oblige("correspondence:logger", "correspondence", okc and not bad,
                       f"{len(bad)} of {len(cases)} sequences differ; " + log[-500:])
+    # --- the extent model (Model/LoggerExtent.v, Props/C12extent.v): Xn, X_max_idx and the capacity after every op, up to the first finalize
+    ext_cases, ext_idx = [], []
+    for i, (cfg, ops, trace, oracle) in enumerate(cases):
+        flags, exp, prev = [], [], -1
+        for o, (res, st) in zip(ops, trace):
+            if o["op"] == "finalize":
+                break
+            flags.append(st["Xn"] > prev)
+            prev = st["Xn"]
+            exp.append(f"(({core.cz(st['Xn'])}, {core.cz(st['X_max_idx'])}), {core.cz(st['cap'])})")
+        if flags:
+            ext_cases.append(f"(({core.cz(cfg['cache'])}, {core.clist([core.cbool(f) for f in flags])}), {core.clist(exp)})")
+            ext_idx.append(i)
+    EXT_OK = ("fun c => let t := ext_trace (ext_init (fst (fst c))) (snd (fst c)) in "
+              "(Nat.eqb (List.length t) (List.length (snd c))) && forallb (fun p => let '((a, b), d) := fst p in let '((a', b'), d') := snd p in "
+              "(a =? a') && (b =? b') && (d =? d')) (combine t (snd c))")
+    oke, bade, loge = core.run_cases("C12ext", ["PV.Model.Val", "PV.Model.LoggerExtent"], "(Z * list bool) * list (Z * Z * Z)", EXT_OK, ext_cases, shard=200)
+    grow = sum(1 for cfg, ops, trace, _ in cases if len({st["cap"] for _, st in trace}) > 1)
+    ctx.coverage["extent_model"] = dict(sequences=len(ext_cases), sequences_with_growth=grow, differing=len(bade))
+    if not ctx.oblige("correspondence:extent", "correspondence", oke and not bade, f"{len(bade)} of {len(ext_cases)} sequences differ from Model/LoggerExtent.v; " + loge[-300:]):
+        j = ext_idx[bade[0]] if bade else 0
+        broken.append(("correspondence:extent", f"extent model (Xn, X_max_idx, capacity) and FunctionLogger differ on sequence {j}: cfg={cases[j][0]} ops={cases[j][1][:10]}"))
     # the declarative monitor runs on every generated sequence regardless (search for concrete inputs)
     for cfg, ops, trace, oracle in cases:
         msg = L.monitor(cfg, ops, trace)
